@@ -14,7 +14,7 @@ RULE = ('every BSD syscall / Mach trap decoder (all BSC_* and MSC_* names, all o
         'no other word of the START or END record; (1) changing only START word k never changes the call name, the '
         'arity or a numeric parameter at another position; (3) an enum-named parameter is injective over its domain; '
         '(4) the call part is unchanged when only the END record, the thread id, the timestamps or unrelated nested '
-        'records change. Non-trivial: four pairwise distinct non-zero START words; distinct by (decoder, START tuple).')
+        'records change, when a stray END precedes the window, and when an earlier unterminated START of the same call exists. Non-trivial: four pairwise distinct non-zero START words; distinct by (decoder, START tuple).')
 ASSUMPTIONS = ['the call part is the text up to the parenthesis that closes name(',
                'parameters that are not decimal/hex literals (names, quoted paths, flag lists) are checked by C08/C11',
                'flag-list parameters may appear or disappear with another flag word (open mode shown only with O_CREAT): '
@@ -52,8 +52,10 @@ def distinct_words(name, seed):
     return None
 
 
-def render(name, a, e, lookups=(), tid=0x33, ts0=1000, nested=(), stray_end=False):
+def render(name, a, e, lookups=(), tid=0x33, ts0=1000, nested=(), stray_end=False, stale_start=None):
     evs = [EV.E(tid, name, 2, args=[e[0], e[3], e[2], e[1]])] if stray_end else []
+    if stale_start is not None:      # an earlier START of the same call that never got its END (lost, or the call never returns)
+        evs.append(EV.E(tid, name, 1, args=stale_start))
     evs.append(EV.E(tid, name, 1, args=a))
     for i, p in enumerate(lookups):
         evs += EV.lookup_events(tid, 50 + i, p)
@@ -104,6 +106,13 @@ def prop_decoder(ctx, case):
     sc2 = TP.split_call(txt2)
     if sc2 is None or (sc2[0], sc2[1]) != (cname, params):
         raise Violation(f'call-part-impure:{name}', f'{name}: call part changed with END/tid/timestamps/nested records: {txt!r} vs {txt2!r}')
+    # (4b) the matching START is the most recent one: an earlier unterminated START of the same call changes nothing
+    other = distinct_words(name, seed + 777)
+    if other is not None:
+        txt4 = guard(render, name, a, e, lookups, stale_start=other[0])
+        sc4 = TP.split_call(txt4)
+        if sc4 is None or (sc4[0], sc4[1]) != (cname, params):
+            raise Violation(f'stale-start-used:{name}', f'{name}: with an earlier unterminated START {other[0]} the call renders {txt4!r} instead of {txt!r}')
     # (1) position sensitivity
     for k in range(4):
         b = list(a)
